@@ -21,11 +21,15 @@ func init() {
 			"SetBytes(Arguments[k]) (non-negative by construction), its negation, or the current holding of the credited entry. R3: entry points whose supply column is 0 (and the toggles) contain no Value mutation and no store to ESDigitalToken.Value of a read entry. " +
 			"R4: the delete performed by ESDTWipe is cut by Frozen == true of the entry read from the same account and key. Does NOT decide: that the stored number equals old ± amount (arithmetic of math/big).",
 		Trusted: []string{"math/big Add/Sub/Neg/Cmp semantics", "T-REG supply column restating the property"},
-		Rules:   []func(*Ctx){c02r1, c02r2, c02r4},
+		Rules:   []func(*Ctx){c02r1, c02r2, c02r4, c02r5},
 	})
 }
 
 func isValueTerm(t string) bool { return strings.HasSuffix(t, ".Value") }
+
+// c02r5: "creates … under a fresh nonce" — the counter the next create starts from moves intact with the create role
+// (the obligations of C07-R2/R3, claimed here as the freshness clause of the creation statement).
+func c02r5(c *Ctx) { handOverRules(c, "C02-R5", "C02-R5b") }
 
 func c02r1(c *Ctx) {
 	const rule = "C02-R1"
